@@ -365,6 +365,19 @@ Proof.
   eapply SSorted_map; [|apply sort_by_ssorted]. intros a b H. unfold key_le in H. cbn. lia.
 Qed.
 
+Lemma count_unique_id : forall (l : list brow) r,
+  NoDup (map br_id l) -> In r l -> length (filter (fun x => br_id x =? br_id r) l) = 1%nat.
+Proof.
+  induction l as [|a t IH]; intros r N Ir; [destruct Ir|]. inversion N as [|? ? NI ND]; subst. cbn.
+  destruct Ir as [<-|Ir].
+  - rewrite Z.eqb_refl. cbn. rewrite filter_none; [reflexivity|]. intros x Ix.
+    destruct (br_id x =? br_id a) eqn:Y; [|reflexivity]. exfalso. apply NI.
+    replace (br_id a) with (br_id x) by lia. now apply in_map.
+  - destruct (br_id a =? br_id r) eqn:Y.
+    + exfalso. apply NI. replace (br_id a) with (br_id r) by lia. now apply in_map.
+    + now apply IH.
+Qed.
+
 (* ---------- one step ---------- *)
 Theorem sq_refines : forall c o, sq_Inv c -> sq_Dom c -> pre (sq_abs c) o ->
   exists out, snd (sq_step c o) = Ok out /\ spec_step (sq_abs c) o (sq_abs (fst (sq_step c o))) out.
@@ -425,17 +438,8 @@ Proof.
     destruct (sq_view c b) as [[m es]|] eqn:V; [|congruence].
     pose proof V as V0. apply sq_view_Some in V as [r [Hr [-> [-> Hrid]]]].
     assert (N1 : rowcount (fun r0 => br_id r0 =? b) (sq_buckets c) = 1).
-    { unfold rowcount. apply bucket_row_In in Hr as [Ir Eid]. pose proof (sqi_bids c I) as N.
-      revert Ir N. generalize (sq_buckets c). induction l as [|a t IH]; intros [<-|Ir] N; cbn.
-      - rewrite Eid, Z.eqb_refl. cbn. inversion N as [|? ? NI ND]; subst.
-        rewrite filter_none; [reflexivity|]. intros x Ix. destruct (br_id x =? br_id r) eqn:Y; [|reflexivity].
-        exfalso. apply NI. assert (br_id r = br_id x) by lia. rewrite H. now apply in_map.
-      - rewrite Eid, Z.eqb_refl. cbn. inversion N as [|? ? NI ND]; subst.
-        rewrite filter_none; [reflexivity|]. intros x Ix. destruct (br_id x =? br_id r) eqn:Y; [|reflexivity].
-        exfalso. apply NI. assert (br_id r = br_id x) by lia. rewrite H. now apply in_map.
-      - inversion N as [|? ? NI ND]; subst. destruct (br_id a =? b) eqn:Y.
-        + exfalso. apply NI. assert (br_id a = br_id r) by lia. rewrite H. now apply in_map.
-        + now apply IH. }
+    { unfold rowcount. apply bucket_row_In in Hr as [Ir Eid]. subst b.
+      rewrite (count_unique_id _ r (sqi_bids c I) Ir). reflexivity. }
     exists ONone. split.
     + cbn. unfold sql_delete_bucket, sql_delete_events_of. cbn. now rewrite N1.
     + replace (sq_abs (fst (let '(c2, n) := sql_delete_bucket (sql_delete_events_of c b) b in
@@ -476,7 +480,7 @@ Proof.
       * congruence.
       * intros k Dk. eapply sql_insert_event_frame; eassumption.
   - (* insert_many *)
-    destruct P as [m [cur [V L]]]. rewrite aget_sq_abs in V.
+    destruct P as [m [cur [V L]]]. rewrite ?aget_sq_abs in V.
     pose proof (sq_view_upserts es c b m cur V) as V1.
     pose proof (sq_Inv_upserts es c b I) as I1.
     destruct (sq_executemany_spec (filter no_id es) (sq_upserts c b es) b m (ups cur es) I1 V1)
@@ -485,21 +489,22 @@ Proof.
     exists ONone. split; [assumption|].
     replace (sq_abs (fst (sq_executemany_insert (sq_upserts c b es) b (filter no_id es))))
       with (aset b (m, R) (sq_abs c)).
-    + eapply sp_insert_many; [now rewrite aget_sq_abs|]. apply spec_many_reorder; [assumption|].
+    + apply (sp_insert_many (sq_abs c) b es m cur R ONone); [rewrite aget_sq_abs; exact V|].
+      apply spec_many_reorder; [assumption|].
       now rewrite <- no_id_noid.
     + symmetry. apply sq_abs_aset; try assumption.
       * now rewrite sq_executemany_buckets, sq_upserts_buckets.
       * congruence.
       * intros k Dk. rewrite sq_executemany_frame by assumption. now apply sq_upserts_frame.
   - (* replace *)
-    destruct P as [m [cur [V L]]]. rewrite aget_sq_abs in V.
+    destruct P as [m [cur [V L]]]. rewrite ?aget_sq_abs in V.
     eexists. split; [reflexivity|]. cbn [fst]. unfold sq_replace.
     replace (sq_abs (sql_update_event c b i e)) with (aset b (m, spec_replace i e cur) (sq_abs c)).
     + apply sp_replace; [now rewrite aget_sq_abs|assumption].
     + symmetry. apply sq_abs_aset; try assumption; [reflexivity|congruence|now apply sq_view_update_event|].
       intros k Dk. now apply sql_update_event_frame.
   - (* replace_last *)
-    destruct P as [m [cur [V N]]]. rewrite aget_sq_abs in V.
+    destruct P as [m [cur [V N]]]. rewrite ?aget_sq_abs in V.
     eexists. split; [reflexivity|]. cbn [fst].
     pose proof (sql_newest_id_spec c b m cur V) as S. pose proof (sq_view_update_newest c b e m cur V) as V'.
     destruct (sql_newest_id c b) as [i|]; [|congruence]. destruct S as [l [Nl El]].
